@@ -1004,7 +1004,12 @@ func RunLife(args []string) int {
 		// queues are created by Connect
 		if err := probe.Connect(); err == nil {
 			qcap, _ = client.VerifQueueCaps(probe.C)
-			probe.C.Close()
+			closed := make(chan struct{})
+			go func() { probe.C.Close(); close(closed) }() // (a Close that hangs is the scenarios' business, not the probe's)
+			select {
+			case <-closed:
+			case <-time.After(2 * time.Second):
+			}
 		}
 	}
 	probe.Net.Release()
